@@ -341,3 +341,61 @@ func Reduced(T int, seed uint64) []Piece {
 		P("empty", nil),
 	}
 }
+
+// GeoTail: 12 symbols whose counts double (9, 18, ..., 9<<11) in pseudo-random order, plus 8 symbols that occur once
+// (the optimal Huffman tree is deeper than 15: the length limiter has to borrow from levels far above the limit, and
+// the once-only symbols get the longest codes), then pad copies of the most frequent symbol, and the input ENDS with
+// tail (1..8) of the once-only symbols: the last codes a vectorised encoder handles in its scalar tail are the longest.
+func GeoTail(pad, tail int, seed uint64) []byte {
+	r := newRng(seed ^ 0x6e07a11)
+	var b []byte
+	for k := 0; k < 12; k++ {
+		for i := 0; i < 9<<uint(k); i++ {
+			b = append(b, byte('A'+k))
+		}
+	}
+	for i := len(b) - 1; i > 0; i-- {
+		j := int(r.next() % uint64(i+1))
+		b[i], b[j] = b[j], b[i]
+	}
+	once := []byte("stuvwxyz")
+	// the once-only symbols that do not end the input are spread over the body
+	for i := 0; i < len(once)-tail; i++ {
+		p := int(r.next() % uint64(len(b)))
+		b = append(b[:p+1], b[p:]...)
+		b[p] = once[i]
+	}
+	for i := 0; i < pad; i++ {
+		b = append(b, byte('A'+11))
+	}
+	if tail > len(once) {
+		tail = len(once)
+	}
+	return append(b, once[len(once)-tail:]...)
+}
+
+// HotTail: pairs (hot byte, one of 200 other values in pseudo-random order) - the hot byte is half of all symbols and
+// gets a 1-bit code, and there is next to nothing to match - with a run of run hot bytes that ends exactly at offset
+// at (a point where the compressor is forced to emit single literals: the end of a buffer fill), preceded by lead
+// bytes of other values that shift the bit position of everything behind them; total bytes in all.
+func HotTail(at, run, lead, total int, seed uint64) []byte {
+	r := newRng(seed ^ 0x407)
+	other := func() byte { return byte(40 + r.next()%200) }
+	b := make([]byte, 0, total)
+	for i := 0; i < lead; i++ {
+		b = append(b, other())
+	}
+	for len(b) < at-run {
+		b = append(b, 0x07)
+		if len(b) < at-run {
+			b = append(b, other())
+		}
+	}
+	for len(b) < at {
+		b = append(b, 0x07)
+	}
+	for len(b) < total {
+		b = append(b, other(), 0x07)
+	}
+	return b[:total]
+}
